@@ -2,6 +2,7 @@ import UvModel.Lemmas.LoopRunInv
 import UvModel.Lemmas.LoopPhases2
 import UvModel.Lemmas.LoopPhases3
 import UvModel.Lemmas.LoopPhases4
+import UvModel.Lemmas.LoopPhases5
 /-!
   C03 — phase order and blocking rules, over the LoopModel.
 -/
@@ -258,5 +259,35 @@ example :
     let sc : Script := fun key occ _ => if key = .h 4 ∧ occ = 0 then [.stop 3, .stop 4, .start 4 0 0] else []
     ((runWatchers sc .idle s0).trace.reverse.filterMap (fun e => match e with | .cb _ _ i _ _ => some i | _ => none)) = [4, 2] := by
   decide
+
+/-- `phase_order` for a whole `uv_run` (every mode, script, fuel, sequence of poll results): the new part of the
+    trace, oldest first, is `seg0 ++ segs.flatten` where
+    (1) `seg0` is the initial timer pass: its callbacks all have phase `timers0`, and it contains no callback at all
+        unless `initialTimers mode (alive s) s.stop` (UV_RUN_DEFAULT, loop alive, no `uv_stop` pending);
+    (2) every `seg ∈ segs` is the event list of one loop iteration: its callback phases are in order
+        (pending, idle, prepare, poll, pending2, check, closing, timers) and none is `timers0`.
+    `Phases.phasesOf l` = the phases of the `cb` events of `l`, in order. -/
+theorem phase_order_default_initial (sc : Script) (mode : Mode) (fuel : Nat) (s s' : State) (r : Bool)
+    (h : uvRun sc mode fuel s = some (s', r)) :
+    ∃ (seg0 : List Event) (segs : List (List Event)),
+      s'.trace.reverse = s.trace.reverse ++ seg0 ++ segs.flatten ∧
+      (∀ p ∈ Phases.phasesOf seg0, p = Phase.timers0) ∧
+      (initialTimers mode (alive s) s.stop = false → Phases.phasesOf seg0 = []) ∧
+      ∀ seg ∈ segs, (Phases.phasesOf seg).Pairwise (fun a b => a.ctorIdx ≤ b.ctorIdx) ∧
+        Phase.timers0 ∉ Phases.phasesOf seg :=
+  Phases.uvRun_trace sc mode fuel s s' r h
+
+/-- UV_RUN_DEFAULT: a due timer fires in the initial pass (and re-arms itself for 1 ms); first iteration: idle,
+    check, the timer again (phase `timers`); second iteration: idle, which stops idle and check — the loop ends.
+    `none` marks the `iterBegin` events.  Phases are ordered inside each iteration, not across iterations. -/
+example :
+    let s0 := [Op.init .timer, .init .idle, .init .check, .start 2 0 0, .start 3 0 0, .start 4 0 0].foldl stepOp
+      (initLoop 0 false [{ clock := 1 }, { clock := 2 }])
+    let sc : Script := fun key occ _ =>
+      if key = .h 3 ∧ occ = 1 then [.stop 3, .stop 4] else if key = .h 2 ∧ occ = 0 then [.start 2 1 0] else []
+    (uvRun sc .default 5 s0).map (fun p => (p.2, (p.1.trace.reverse.drop s0.trace.length).filterMap
+      (fun e => match e with | .cb ph _ i _ _ => some (some (ph, i)) | .iterBegin => some none | _ => none))) =
+    some (false, [some (.timers0, 2), none, some (.idle, 3), some (.check, 4), some (.timers, 2), none, some (.idle, 3)]) := by
+  decide +kernel
 
 end UvModel.Props.C03
